@@ -23,8 +23,8 @@ type c10Op struct {
 	Entropy model.Bytes `json:"entropy,omitempty"`
 	FailAt  int         `json:"fail_at,omitempty"`
 	Budget  int         `json:"byte_budget,omitempty"` // encrypt-fault: the source runs dry after this many octets (fails inside a read)
-	IV      model.Bytes `json:"iv,omitempty"`  // decrypt-valid: reference-built ciphertext
-	Pad     int         `json:"pad,omitempty"` // decrypt-valid: pad length used by the reference
+	IV      model.Bytes `json:"iv,omitempty"`          // decrypt-valid: reference-built ciphertext
+	Pad     int         `json:"pad,omitempty"`         // decrypt-valid: pad length used by the reference
 }
 
 type c10In struct {
